@@ -3,8 +3,9 @@ Driver ops of the NATS server shutdown model (C20).
 
 `nstrace <w> <q> <events>`  trace validation: the events observed on the real server
   (`E<i>` callback of request i is about to send to workC, `D<i>` a worker received i,
-  `P<i>` processFrame for i finished / reply published, `SC` Stop called, `SR` Stop returned,
-  `VR` Serve returned) must be the observable projection of a run of `FV.NS.step`. The hidden
+  `P<i>` processFrame for i finished / reply published, `X<i>` the handler turned i away (queue closed),
+  `SC` Stop called, `SR` Stop returned nil, `SRE` Stop returned an error (the drain failed), `VR` Serve
+  returned, `FC` a connection fault is injected) must be the observable projection of a run of `FV.NS.step`. The hidden
   actions (arrive, deliver, handlerEnqueue, callbackDone, the steps of Serve, worker exits) are
   filled in lazily, only when the next observed event needs them. `D` is logged by the worker
   AFTER its receive, so a receive may have happened before it shows up in the log: when the
@@ -12,7 +13,7 @@ Driver ops of the NATS server shutdown model (C20).
   remembered in `unconf` until the matching `D` arrives.
   Output `ok end=<observable>` or `rejected at <k>:<event>`.
 
-`nsrun <w> <q> <stopPos> <gap> <delay> <jitter> <pub2> <durs>` (`nsrun1` = the same, executed in-process by the harness)  the model's prediction for a configuration: a fair
+`nsrun <w> <q> <stopPos> <gap> <delay> <jitter> <pub2> <fault> <durs>` (`nsrun1` = the same, executed in-process by the harness)  the model's prediction for a configuration: a fair
   schedule of the model (first `stopPos` requests arrive, Stop is called, the remaining ones are
   offered while the system runs) is executed to the end.
 -/
@@ -25,6 +26,7 @@ open FV.NS
 structure VState where
   s : Sys
   unconf : List Msg      -- receives performed on the model whose `D` event has not been seen yet
+  fail : Bool := false   -- the log says (somewhere) that Stop returned an error: the drain step failed
 
 def idleWorker (ws : List Wk) : Option Nat := ws.findIdx? (· == .idle)
 def busyWorker (ws : List Wk) (m : Msg) : Option Nat := ws.findIdx? (· == .busy m)
@@ -39,7 +41,7 @@ def hypoTake (v : VState) : Option VState := do
     | [], .sending m => some m
     | _, _ => none
   let s' ← step v.s (.workerTake i)
-  pure { s := s', unconf := v.unconf ++ [taken] }
+  pure { v with s := s', unconf := v.unconf ++ [taken] }
 
 /-- Let the current callback (if any) complete. -/
 def finishCb : Nat → VState → Option VState
@@ -65,20 +67,30 @@ def servePcRank : ServePc → Nat
   | .running => 0 | .gotQuit => 1 | .unsubbed => 2 | .barrierWait => 3
   | .barrierDone => 4 | .resultSent => 5 | .closedQ => 6 | .returned => 7
 
-/-- Advance `Serve` (hidden steps) until its program counter has rank ≥ `target` (≤ 6). -/
-def advanceServe (target : Nat) : Nat → VState → Option VState
+/-- Advance `Serve` (hidden steps) until its program counter has rank ≥ `target` (≤ 6). With `fail` the
+drain step ends with an error (possible after a fault only), otherwise it runs to the barrier. -/
+def advanceServe (fail : Bool) (target : Nat) : Nat → VState → Option VState
   | 0, v => if servePcRank v.s.serve ≥ target then some v else none
   | fuel + 1, v =>
     if servePcRank v.s.serve ≥ target then some v else
     match v.s.serve with
-    | .running => (stepV v .serveGotQuit).bind (advanceServe target fuel)
-    | .gotQuit => (stepV v .drainStart).bind (advanceServe target fuel)
-    | .unsubbed => (stepV { v with s := deliverAll (v.s.inflight.length) v.s } .flushBarrier).bind (advanceServe target fuel)
-    | .barrierWait => ((finishCb (v.s.workers.length + 2) v).bind (stepV · .barrierFires)).bind (advanceServe target fuel)
-    | .barrierDone => (stepV v .sendResult).bind (advanceServe target fuel)
-    | .resultSent => (stepV v .closeWorkC).bind (advanceServe target fuel)
+    | .running => (stepV v .serveGotQuit).bind (advanceServe fail target fuel)
+    | .gotQuit =>
+      -- after a fault the broker may not act on the UNSUB any more (requests may still come)
+      (stepV v (if fail then .drainFail else if v.s.faulty then .drainStartIgnored else .drainStart)).bind (advanceServe fail target fuel)
+    | .unsubbed =>
+      if fail then (stepV v .drainFail).bind (advanceServe fail target fuel)
+      else (stepV { v with s := deliverAll (v.s.inflight.length) v.s } .flushBarrier).bind (advanceServe fail target fuel)
+    | .barrierWait =>
+      if fail then (stepV v .drainFail).bind (advanceServe fail target fuel)
+      else ((finishCb (v.s.workers.length + 2) v).bind (stepV · .barrierFires)).bind (advanceServe fail target fuel)
+    | .barrierDone => (stepV v .sendResult).bind (advanceServe fail target fuel)
+    | .resultSent => ((finishCb (v.s.workers.length + 2) v).bind (stepV · .closeWorkC)).bind (advanceServe fail target fuel)
     | .closedQ => none
     | .returned => none
+
+/-- Hidden steps of Serve, the way the log says the drain ended (`SRE` anywhere in it: it failed). -/
+def advanceAny (target : Nat) (v : VState) : Option VState := advanceServe v.fail target 12 v
 
 def exitIdle (s : Sys) : Sys :=
   (List.range s.workers.length).foldl (fun s i => (step s (.workerExit i)).getD s) s
@@ -105,17 +117,26 @@ def takeMsg (m : Msg) : Nat → VState → Option VState
       else none
 
 inductive Ev where
-  | e (m : Msg) | d (m : Msg) | p (m : Msg) | sc | sr | vr
+  | e (m : Msg) | d (m : Msg) | p (m : Msg) | x (m : Msg) | sc | sr | sre | vr | fc
 
 def parseEv (t : String) : Option Ev :=
   match t.toList with
   | ['S', 'C'] => some .sc
   | ['S', 'R'] => some .sr
+  | ['S', 'R', 'E'] => some .sre
   | ['V', 'R'] => some .vr
+  | ['F', 'C'] => some .fc
+  | 'X' :: r => (String.ofList r).toNat?.map .x
   | 'E' :: r => (String.ofList r).toNat?.map .e
   | 'D' :: r => (String.ofList r).toNat?.map .d
   | 'P' :: r => (String.ofList r).toNat?.map .p
   | _ => none
+
+def dropMsg (m : Msg) (v : VState) : Option VState := do
+  let s ← if m ∈ v.s.arrived then some v.s else step v.s (.arrive m)
+  let s := deliverAll s.inflight.length s
+  let s ← step s .cbStart
+  if m ∈ s.dropped then some { v with s := s } else none
 
 def applyEv (v : VState) : Ev → Option VState
   | .e m => do
@@ -130,19 +151,29 @@ def applyEv (v : VState) : Ev → Option VState
   | .p m => do
     if m ∈ v.unconf then none
     let i ← busyWorker v.s.workers m
+    -- the handler returned, the reply was written under the write mutex and published
+    let v ← stepV v (.workerHandlerDone i)
+    let v ← stepV v (.workerLock i)
+    let v ← stepV v (.workerWriteOk i)
+    let v ← stepV v (.workerUnlock i)
     stepV v (.workerReply i)
+  | .x m => (advanceAny 6 v).bind (dropMsg m)     -- the queue is closed; the request is turned away
   | .sc => stepV v .stopCall
+  | .fc => stepV v .fault
   | .sr => do
-    let v ← advanceServe 5 12 v
+    let v ← advanceServe false 5 12 v
+    stepV v .stopReturn
+  | .sre => do
+    let v ← if servePcRank v.s.serve ≥ 5 then some v else advanceServe true 5 12 v
     stepV v .stopReturn
   | .vr => do
-    let v ← advanceServe 6 12 v
+    let v ← advanceAny 6 v
     stepV { v with s := exitIdle v.s } .serveReturn
 
 def showEnd (s : Sys) : String :=
   let sv := if s.serve = .returned then "returned" else "hung"
   let st := if s.stop = .returned then "returned" else "hung"
-  s!"serve:{sv},stop:{st},arrived:{s.arrived.length},processed:{s.processed.length},replied:{s.replied.length}"
+  s!"serve:{sv},stop:{st},arrived:{s.handed.length},processed:{s.processed.length},replied:{s.replied.length},dropped:{s.dropped.length}"
 
 def validate (v : VState) (k : Nat) : List String → String
   | [] =>
@@ -159,7 +190,8 @@ def validate (v : VState) (k : Nat) : List String → String
 def systemActions (w : Nat) : List Action :=
   [.serveGotQuit, .drainStart, .deliver, .flushBarrier, .cbStart, .handlerEnqueue, .callbackDone, .barrierFires,
    .sendResult, .stopReturn, .closeWorkC, .serveReturn] ++
-  (List.range w).flatMap fun i => [Action.workerReply i, .workerTake i, .workerExit i]
+  (List.range w).flatMap fun i => [Action.workerReply i, .workerUnlock i, .workerWriteOk i, .workerErrReply i,
+    .workerLock i, .workerHandlerDone i, .workerTake i, .workerExit i]
 
 def firstEnabled (s : Sys) : List Action → Option Sys
   | [] => none
@@ -185,19 +217,32 @@ def predictRun (w q stopPos n : Nat) : String :=
   let pre := (List.range (min stopPos n))
   let s1 := pre.foldl (fun s m => (step s (.arrive m)).getD s) s0
   let s2 := (step s1 .stopCall).getD s1
-  let s := fairRun w (20 * (n + 10) + 100) s2 ((List.range n).drop (min stopPos n))
+  let s := fairRun w (40 * (n + 10) + 100) s2 ((List.range n).drop (min stopPos n))
   let once := s.arrived.all fun m => s.processed.count m == 1 && s.replied.count m == 1
   let sv := if s.serve = .returned then "returned" else "hung"
   let st := if s.stop = .returned then "returned" else "hung"
   if once && !s.panicked && s.processed.length == s.arrived.length then s!"ok serve:{sv},stop:{st}"
   else s!"violated serve:{sv},stop:{st}"
 
+/-- `<n>` or `<n><kind>` with kind one of x e u a o (what the handler does; irrelevant to the model). -/
+def durTok (t : String) : Option Nat :=
+  match t.toList.reverse with
+  | c :: r => if c ∈ ['x', 'e', 'u', 'a', 'o'] then (String.ofList r.reverse).toNat? else t.toNat?
+  | [] => none
+
+def faultOk (f : String) : Bool :=
+  match f.toList with
+  | ['-'] => true
+  | [k, d] => (k ∈ ['c', 'b', 's']) && ('0' ≤ d && d ≤ '6')
+  | _ => false
+
 def stepNsrun (args : List String) : String :=
   match args with
-  | [w, q, sp, gap, delay, jit, pub2, durs] =>
+  | [w, q, sp, gap, delay, jit, pub2, fault, durs] =>
     match w.toNat?, q.toNat?, sp.toNat?, gap.toNat?, delay.toNat?, jit.toNat?, pub2.toNat? with
     | some w, some q, some sp, some gap, some delay, some jit, some pub2 =>
-      let ds := (durs.splitOn ",").map String.toNat?
+      let ds := (durs.splitOn ",").map durTok
+      if !faultOk fault then "bad-args" else
       if w < 1 ∨ w > 64 ∨ q > 1024 ∨ gap > 100000 ∨ delay > 100000 ∨ jit > 100000 ∨ pub2 > 500 ∨ ds.isEmpty ∨ ds.length > 400
           ∨ ds.any (fun d => match d with | some d => d > 20000 | none => true) then "bad-args"
       else predictRun w q sp ds.length
@@ -211,7 +256,7 @@ def stepNatsServer (op : String) (args : List String) : Option String :=
     | some w, some q =>
       if w < 1 ∨ w > 64 ∨ q > 1024 then some "bad-args" else
       let evs := if tr == "." then [] else tr.splitOn ","
-      some (validate { s := init w q, unconf := [] } 0 evs)
+      some (validate { s := init w q, unconf := [], fail := evs.contains "SRE" } 0 evs)
     | _, _ => some "bad-args"
   | "nsrun", args => some (stepNsrun args)
   | "nsrun1", args => some (stepNsrun args)
